@@ -26,7 +26,7 @@ def run(ctx):
         "server-side storage is observed through a decorator installed with session_pool::storage() (public seam); "
         "client cookies are hmac-sha1 signed, their deadline is read back by the harness with an encryptor of its own",
         "on_server(true) is not driven with location=client (save() throws by contract)",
-        "session.timeout=100, client_size_limit=96, values are opaque ids (small / 120-byte big), <=4 keys, <=4 browsers",
+        "session.timeout=100, client_size_limit=96, <=4 keys, <=4 browsers; values are byte strings from an adversarial family (NUL first/middle/last, equal as C strings, differing in the last byte / in bytes >= 0x80 only, store_data() blobs of equal serialized size; small or +120 bytes), compared by identity of the bytes (interned ids)",
         "tcp (network) session storage is not driven",
     ]
     # ------------------------------------------------------------------ Leg D
